@@ -399,7 +399,7 @@ for _s in ALL:
 LEVEL_TEXT = {
  'C01': 'Real ConcurrentBoundedQueue<two-word payload, VS> IR; client programs of 2-4 threads mixing push/pop/try_/push_n/pop_n/callback variants on capacities 1-2; oracle = exactly-once multiset, per-thread FIFO, fully published payload, try_ success when sequenced after enough completed operations.',
  'C02': 'Same queue scenarios with balanced push/pop counts; STUCK query: can any thread sleep in futex_wait with no later wake (lost wake-up/deadlock) - decided for every interleaving and store-buffer/reordering behaviour of the sc/tso/arm models; spurious wake-ups not relied on. Includes the 16-bit slot version at 0xFFFF with the full slot freed by a single pop and by the batch pop path (pop_n). The timed exclusive pop and spin-wait liveness are outside the claim (stated).',
- 'C03': 'Real ConcurrentFixedSwissTable (SSE group loads scalarised) with a harness hasher: two emplaces of one key (one winner, same element) and emplace vs find reading the mapped value (found element fully constructed) under sc/arm; sequential 64-bucket probing agreement between emplace and find/contains/count with prefilled groups and symbolic home group/tag. Also: two DIFFERENT keys sharing the 7-bit tag and home group racing for one slot (each key one winner, own element, both found; with a prefilled group and with a concurrent lookup), and a full 16-bucket table refusing a symbolic key without consuming the (move-tracking) argument. Growing set (ConcurrentTransientHashSet, head table full so that a new table is chained): a second thread's complete emplace of the same key performed at a symbolic hash-computation point of the first thread's emplace (the hasher is a re-entrant scheduling hook; sequential, natively replayed): exactly one insertion reports success, same element, key present once, size/iteration exact. Growth races on two real threads are built but not registered (dev tier, not finishing).',
+ 'C03': 'Real ConcurrentFixedSwissTable (SSE group loads scalarised) with a harness hasher: two emplaces of one key (one winner, same element) and emplace vs find reading the mapped value (found element fully constructed) under sc/arm; sequential 64-bucket probing agreement between emplace and find/contains/count with prefilled groups and symbolic home group/tag. Also: two DIFFERENT keys sharing the 7-bit tag and home group racing for one slot (each key one winner, own element, both found; with a prefilled group and with a concurrent lookup), and a full 16-bucket table refusing a symbolic key without consuming the (move-tracking) argument. Growing set (ConcurrentTransientHashSet, head table full so that a new table is chained): the complete emplace of the same key by a second thread performed at a symbolic hash-computation point of the emplace of the first thread (the hasher is a re-entrant scheduling hook; sequential, natively replayed): exactly one insertion reports success, same element, key present once, size/iteration exact. Growth races on two real threads are built but not registered (dev tier, not finishing).',
  'C04': 'Real ConcurrentVector<E,0> (block size 1-2) grown by 2 threads: same index => same address, constructed value visible, ctor/dtor balance after destruction, snapshot reader vs grower, gc() vs grower with symbolic clock; RetireList driven directly with a symbolic clock (1024 s windows at 0 and across the 16-bit timestamp wrap): nothing freed < 64 s after retirement.',
  'C05': 'Real anyflow sources (builder, graph, vertex, data, dependency, closure, executor .cpp + headers) with the graph built by the real GraphBuilder during set-up. (a) Sequential whole-pipeline scenarios on the inplace executor: a chain, and a fan-out/fan-in graph with on/unless conditional dependencies, an essential dependency, an unneeded vertex, symbolic inputs / condition / requested-target set, run twice with reset() in between; oracle = a reference demand-driven evaluation (target values, which vertices ran, once, after their dependencies, closure finished rc 0). (b) Concurrent unit scenarios of the dependency counter protocol: graph->run() (activation) on one thread racing with the external publication of the condition and of the target data on two other threads through the real emit()/release() path, for on/unless, condition true/false, one or two dependencies on the same data; the harness executor only records vertex invocations; oracle = exactly one invocation of the dependent vertex, after the condition was evaluated and (if it holds) the target was ready, producers activated at most once / never when not needed. Thread-pool executor, channels, mutable dependencies and >3 threads are outside the scenarios (stated).',
  'C06': 'Sequential mode on the real memory_resource.cpp: concrete prefix up to a page-array boundary, then 2 symbolic (size from an 8-entry boundary table, alignment 1..512) requests with optional destructor registration; oracle: aligned, owned, disjoint, canaries intact, release() returns each page / oversize block once with its size+alignment, destructors once in reverse order, accounting zero, reusable. Shared/swiss variants outside.',
